@@ -2,7 +2,7 @@
   Ops/RRule.lean — driver ops of C01.
 
   Wire form of an argument set (17 tokens):
-    freq interval wkst count until dtstart tz bysetpos bymonth bymonthday byyearday byeaster
+    freq interval wkst[@k] count until dtstart tz bysetpos bymonth bymonthday byyearday byeaster
     byweekno byweekday byhour byminute bysecond
   ints decimal, `-` = None, lists `[..]`, `until`/`dtstart` = `[y,m,d,hh,mm,ss,us]`,
   `byweekday` = flat pairs `[wd,n,wd,n,…]` with `n = 0` for a plain weekday.
@@ -14,10 +14,13 @@
     rrule.spec <args> <lo> <hi> <max>         → ok <done 0|1> <item>*     (Spec.RRule.window, ordinals lo..hi)
     rrule.occ <args> <nperiods>               → ok <item>*                (Spec.RRule.occ, the plain definition)
     rrule.byok <args> <item>*                 → ok <flags>   per item: byOk ∧ on the interval grid ∧ ≥ dtstart
+    rrule.supported <args>                    → ok <family>|-             (RRule.family: the exactness theorem that covers
+                                                                           the argument set, Spec/RRuleSupported.lean)
 -/
 import DateutilVerif.Base.Wire
 import DateutilVerif.Model.RRule
 import DateutilVerif.Spec.RRule
+import DateutilVerif.Spec.RRuleSupported
 
 namespace Ops.RRule
 open Wire
@@ -43,7 +46,13 @@ def parseArgs? (t : List String) : Option Args :=
      byweekno, byweekday, byhour, byminute, bysecond] => do
     let freq ← parseInt? freq
     let interval ← parseInt? interval
-    let wkst ← parseOptInt? wkst
+    -- `<wkst>` or `<wkst>@<k>`: with `@k` the rule is built while `calendar.firstweekday()` is `k`
+    let wparts := wkst.splitOn "@"
+    let wkst ← parseOptInt? (wparts.headD "")
+    let fwd ← match wparts with
+      | [_] => some none
+      | [_, k] => (parseInt? k).map some
+      | _ => none
     let count ← parseOptInt? count
     let untilDT ← parseOptDT? untl
     let dtstart ← (← parseOptDT? dtstart)
@@ -61,8 +70,9 @@ def parseArgs? (t : List String) : Option Args :=
     let byhour ← parseOptList? byhour
     let byminute ← parseOptList? byminute
     let bysecond ← parseOptList? bysecond
-    pure { freq, dtstart, tz, interval, wkst, count, untilDT, bysetpos, bymonth, bymonthday, byyearday,
-           byeaster, byweekno, byweekday, byhour, byminute, bysecond }
+    let a : Args := { freq, dtstart, tz, interval, wkst, count, untilDT, bysetpos, bymonth, bymonthday, byyearday,
+                      byeaster, byweekno, byweekday, byhour, byminute, bysecond }
+    pure (match fwd with | some k => resolveW k a | none => a)
   | _ => none
 
 def showOL : Option (List Int) → String
@@ -159,6 +169,8 @@ def handle (op : String) (args : List String) : Option String :=
     | "rrule.occ", some [n] =>
         let l := Spec.RRule.occ a n.toNat
         some ("ok" ++ (if l.isEmpty then "" else " " ++ showItems l))
+    | "rrule.supported", some [] =>
+        some ("ok " ++ (match family a with | some f => f.name | none => "-"))
     | "rrule.byok", _ =>
         match rest.mapM parseItem? with
         | none => some "bad-args"
